@@ -5,6 +5,8 @@ package softfloat
 // is the SMT-LIB FloatingPoint theory in the symbolic run and the hardware
 // natively. NaN results are compared by class, everything else bit for bit.
 
+import "math/big"
+
 func VerifC05_Neg() {
 	a := verifNondetUint64("a")
 	verifAssert(verifF64NegIs(Fneg64(a), a), "Fneg64")
@@ -180,26 +182,39 @@ func verifC05AddCell(k int) {
 	verifReach("end")
 }
 
-// quick: the special-value cell and a fixed, stated subset of the cells
+// quick: the special-value cell and a fixed, stated subset of the cells;
+// thorough: the special cell, every cell with the first operand larger
+// (d = 0..56 and d > 56, both sign relations) and the mirrored cells for
+// d in {1, 2, 3, 10, 30, 56, >56}.
+func verifC05ThoroughCells64() []int {
+	cells := []int{0}
+	for k := 1; k < 1+2*(verifC05MaxD+2); k++ {
+		cells = append(cells, k)
+	}
+	base := 1 + 2*(verifC05MaxD+2)
+	for _, d := range []int{1, 2, 3, 10, 30, verifC05MaxD, verifC05MaxD + 1} {
+		cells = append(cells, base+2*(d-1), base+2*(d-1)+1)
+	}
+	return cells
+}
+
 func VerifC05_Add64_Cells() {
-	quick := []int{0, 1 + 2*1, 1 + 2*1 + 1, 1 + 2*2, 1 + 2*2 + 1, 1 + 2*30, 1 + 2*30 + 1, 1 + 2*(verifC05MaxD+1), 1 + 2*(verifC05MaxD+1) + 1}
+	quick := []int{0, 1 + 2*1 + 1, 1 + 2*2, 1 + 2*30 + 1, 1 + 2*(verifC05MaxD+1)}
 	if verifThorough() {
-		verifC05AddCell(verifChoose("cell", verifC05Cells64()))
-		return
+		quick = verifC05ThoroughCells64()
 	}
 	verifC05AddCell(quick[verifChoose("cell", len(quick))])
 }
 
+// Fsub64 (implemented as fadd64(f, fneg64(g))) agrees with the oracle on a
+// subset of the cells.
 func VerifC05_Sub64_Cells() {
-	quick := []int{0, 1 + 2*1, 1 + 2*1 + 1, 1 + 2*3, 1 + 2*3 + 1}
-	k := 0
-	if verifThorough() {
-		k = verifChoose("cell", verifC05Cells64())
-	} else {
-		k = quick[verifChoose("cell", len(quick))]
-	}
 	a, b := verifNondetUint64("a"), verifNondetUint64("b")
-	verifC05Cell64(k, a, b)
+	quick := []int{0, 1 + 2*1, 1 + 2*3 + 1}
+	if verifThorough() {
+		quick = []int{0, 1, 2, 1 + 2*1, 1 + 2*1 + 1, 1 + 2*3, 1 + 2*3 + 1, 1 + 2*20, 1 + 2*20 + 1}
+	}
+	verifC05Cell64(quick[verifChoose("cell", len(quick))], a, b)
 	verifAssert(verifF64SubIs(Fsub64(a, b), a, b), "Fsub64 is the correctly rounded difference")
 	verifReach("end")
 }
@@ -262,5 +277,193 @@ func VerifC05_AddSub32_Cells() {
 	} else {
 		verifAssert(verifF32SubIs(Fsub32(a, b), a, b), "Fsub32 is the correctly rounded difference")
 	}
+	verifReach("end")
+}
+
+// ---- multiplication and division: compositional
+//
+// The solvers do not equate two multiplier (or divider) circuits, so Fmul64
+// and Fdiv64 are decided in three solver-checked steps whose composition is
+// an argument stated in DESIGN.md / the evidence:
+//   U  Funpack64(f) = (sign, mant, exp) with f = ±mant·2^(exp-52) exactly
+//   M  mullu(u, v) is the exact 128-bit product; divlu(u1,u0,v) the exact
+//      quotient and remainder (integer rendering, operands by 32-bit halves)
+//   R  with mullu / divlu replaced by ANY result in the range M allows,
+//      Fmul64 / Fdiv64 return the correctly rounded value of that result
+//      scaled by the operands' exponents (and the IEEE special-case table
+//      holds for NaN, Inf and zero operands).
+
+func VerifC05_Unpack64() {
+	f := verifNondetUint64("f")
+	sign, mant, exp, inf, nan := Funpack64(f)
+	e := (f >> 52) & 0x7ff
+	m := f & (1<<52 - 1)
+	verifAssert(nan == (e == 0x7ff && m != 0) && inf == (e == 0x7ff && m == 0), "Funpack64 classifies NaN and Inf")
+	if !nan && !inf {
+		verifAssert(sign == f&(1<<63), "Funpack64 sign")
+		verifAssert(mant == 0 || (mant >= 1<<52 && mant < 1<<53), "Funpack64 normalises the mantissa to 53 bits")
+		verifAssert(exp >= -1100 && exp <= 1100, "Funpack64 exponent range")
+		verifAssert(verifF64UnpackIs(f, sign != 0, mant, exp-52), "Funpack64: f = ±mant·2^(exp-52) exactly")
+	}
+	verifReach("end")
+}
+
+// stand-ins for mullu / divlu in the R harnesses (check config overrides):
+// any result within the range the exactness lemmas allow
+func verifStubC05Mullu(u, v uint64) (lo, hi uint64) {
+	lo, hi = verifNondetUint64("prod.lo"), verifNondetUint64("prod.hi")
+	// u, v in [2^52, 2^53)  =>  u*v in [2^104, 2^106)
+	verifAssume(hi >= 1<<40 && hi < 1<<42)
+	return
+}
+
+func verifStubC05Divlu(u1, u0, v uint64) (q, r uint64) {
+	q, r = verifNondetUint64("quot"), verifNondetUint64("rem")
+	// (u1:u0) = fm·2^54 with fm, v in [2^52, 2^53)  =>  q in (2^53, 2^55), r < v
+	verifAssume(q > 1<<53 && q < 1<<55 && r < v)
+	return
+}
+
+// operand classes for the rounding lemmas: quick decides normal x normal,
+// thorough also every combination with subnormal operands
+func verifC05Classes(a, b uint64) {
+	sub := func(x uint64) bool { return (x>>52)&0x7ff == 0 }
+	k := 0
+	if verifThorough() {
+		k = verifChoose("class", 4)
+	}
+	verifAssume(sub(a) == (k&1 != 0))
+	verifAssume(sub(b) == (k&2 != 0))
+}
+
+func verifC05Special64(x uint64) bool {
+	e, m := (x>>52)&0x7ff, x&(1<<52-1)
+	return e == 0x7ff || (e == 0 && m == 0)
+}
+
+func VerifC05_Mul64_Special() {
+	a, b := verifNondetUint64("a"), verifNondetUint64("b")
+	verifAssume(verifC05Special64(a) || verifC05Special64(b))
+	verifAssert(verifF64MulIs(Fmul64(a, b), a, b), "Fmul64 with a NaN, Inf or zero operand follows IEEE-754")
+	verifReach("end")
+}
+
+func VerifC05_Div64_Special() {
+	a, b := verifNondetUint64("a"), verifNondetUint64("b")
+	verifAssume(verifC05Special64(a) || verifC05Special64(b))
+	verifAssert(verifF64DivIs(Fdiv64(a, b), a, b), "Fdiv64 with a NaN, Inf or zero operand follows IEEE-754")
+	verifReach("end")
+}
+
+// R for multiplication: mullu is the stand-in above
+func VerifC05_Mul64_Rounding() {
+	a, b := verifNondetUint64("a"), verifNondetUint64("b")
+	verifAssume(!verifC05Special64(a) && !verifC05Special64(b))
+	verifC05Classes(a, b)
+	as, _, ae, _, _ := Funpack64(a)
+	bs, _, be, _, _ := Funpack64(b)
+	if !verifThorough() {
+		// quick: results in the normal range (no overflow / gradual underflow paths)
+		verifAssume(ae+be >= -1000 && ae+be <= 1000)
+	}
+	r := Fmul64(a, b)
+	// the stand-in was called exactly once: read its result back (natively
+	// there is no stand-in: the real mullu produced the product)
+	lo, hi := verifC05LastLo, verifC05LastHi
+	if !verifC05StubCalled {
+		_, am, _, _, _ := Funpack64(a)
+		_, bm, _, _, _ := Funpack64(b)
+		lo, hi = mullu(am, bm)
+	}
+	verifAssert(verifF64RoundIs(r, (as^bs) != 0, hi, lo, ae+be-104), "Fmul64 returns the correctly rounded value of product·2^(ea+eb-104)")
+	verifReach("end")
+}
+
+var verifC05LastLo, verifC05LastHi, verifC05LastQ, verifC05LastR uint64
+var verifC05StubCalled bool
+
+func verifStubC05MulluRec(u, v uint64) (lo, hi uint64) {
+	lo, hi = verifStubC05Mullu(u, v)
+	verifC05LastLo, verifC05LastHi, verifC05StubCalled = lo, hi, true
+	return
+}
+
+func verifStubC05DivluRec(u1, u0, v uint64) (q, r uint64) {
+	q, r = verifStubC05Divlu(u1, u0, v)
+	verifC05LastQ, verifC05LastR, verifC05StubCalled = q, r, true
+	return
+}
+
+// R for division
+func VerifC05_Div64_Rounding() {
+	a, b := verifNondetUint64("a"), verifNondetUint64("b")
+	verifAssume(!verifC05Special64(a) && !verifC05Special64(b))
+	verifC05Classes(a, b)
+	as, _, ae, _, _ := Funpack64(a)
+	bs, _, be, _, _ := Funpack64(b)
+	if !verifThorough() {
+		verifAssume(ae-be >= -1000 && ae-be <= 1000)
+	}
+	r := Fdiv64(a, b)
+	q, rem := verifC05LastQ, verifC05LastR
+	if !verifC05StubCalled {
+		_, am, _, _, _ := Funpack64(a)
+		_, bm, _, _, _ := Funpack64(b)
+		q, rem = divlu(am>>10, am<<54, bm)
+	}
+	sticky := uint64(0)
+	if rem != 0 {
+		sticky = 1
+	}
+	// exact quotient = (q + rem/v)·2^(ea-eb-54); q has a guard bit, so rounding (2q+sticky)·2^(ea-eb-55) is the same
+	verifAssert(verifF64RoundIs(r, (as^bs) != 0, q>>63, q<<1|sticky, ae-be-55), "Fdiv64 returns the correctly rounded value of quotient·2^(ea-eb-54)")
+	verifReach("end")
+}
+
+// M: mullu and divlu are exact (integer rendering; operands by 32-bit halves,
+// see the engine notes: single 64-bit unknowns do not decide).
+func verifC05U64(name string) uint64 {
+	return uint64(verifNondetUint32(name+".hi"))<<32 + uint64(verifNondetUint32(name+".lo"))
+}
+
+func VerifC05_Mullu_Exact() {
+	u, v := verifC05U64("u"), verifC05U64("v")
+	lo, hi := mullu(u, v)
+	want := new(big.Int).Mul(new(big.Int).SetUint64(u), new(big.Int).SetUint64(v))
+	got := new(big.Int).Lsh(new(big.Int).SetUint64(hi), 64)
+	got.Add(got, new(big.Int).SetUint64(lo))
+	verifAssert(got.Cmp(want) == 0, "mullu(u, v) is the exact 128-bit product")
+	verifReach("end")
+}
+
+// range used by the rounding lemma
+func VerifC05_Mullu_Range_Exact() {
+	u, v := verifC05U64("u"), verifC05U64("v")
+	verifAssume(u >= 1<<52)
+	verifAssume(u < 1<<53)
+	verifAssume(v >= 1<<52)
+	verifAssume(v < 1<<53)
+	lo, hi := mullu(u, v)
+	// exactness is the lemma above; here it is used, not re-proved
+	got := new(big.Int).Lsh(new(big.Int).SetUint64(hi), 64)
+	got.Add(got, new(big.Int).SetUint64(lo))
+	verifAssume(got.Cmp(new(big.Int).Mul(new(big.Int).SetUint64(u), new(big.Int).SetUint64(v))) == 0)
+	verifAssert(hi >= 1<<40, "53-bit operands give a product >= 2^104")
+	verifAssert(hi < 1<<42, "53-bit operands give a product < 2^106")
+	verifReach("end")
+}
+
+// divlu's exactness (Knuth division over 32-bit digits) is NOT decided: the
+// integer-rendering query is unknown at 300 s in z3 and cvc5. The division
+// claim therefore rests on it as a stated assumption.
+
+// binary32 multiplication and division run through binary64 (exact widening,
+// Fmul64 / Fdiv64, F64to32): their special-value table is decided directly.
+func VerifC05_MulDiv32_Special() {
+	a, b := verifNondetUint32("a"), verifNondetUint32("b")
+	sp := func(x uint32) bool { e, m := (x>>23)&0xff, x&(1<<23-1); return e == 0xff || (e == 0 && m == 0) }
+	verifAssume(sp(a) || sp(b))
+	verifAssert(verifF32MulIs(Fmul32(a, b), a, b), "Fmul32 with a NaN, Inf or zero operand follows IEEE-754")
+	verifAssert(verifF32DivIs(Fdiv32(a, b), a, b), "Fdiv32 with a NaN, Inf or zero operand follows IEEE-754")
 	verifReach("end")
 }
